@@ -20,6 +20,9 @@
      "wait"   a = ms: the body itself lets time pass (its own time.sleep) -- requests nothing
      PositionHlCommander only:  "goto" a,b,c = x,y,z mm, v = velocity (0 = default), w = 1: z default
                                 "setv" v | "seth" c | "setl" c   (default velocity/height/landing height)
+                                "land" c = landing height (w = 1: default), v | "takeoff" c = height (w = 1: default), v
+                                (a further flight of the same object; st starts at the constructor's x, y, z)
+     "raise" a = kind of exception (0 Exception subclass, 1 KeyboardInterrupt, 2 SystemExit, 3 GeneratorExit, 4 BaseException subclass)
    Readings fixed in DESIGN 3.1(9) and in harness/props/C17.py (assumptions).                        *)
 EXTENDS Integers, Sequences, FiniteSets
 
@@ -120,7 +123,8 @@ HoverVelocity(h, vels) ==
         \/ last = {} /\ QZero(h.vx) /\ QZero(h.vy) /\ QZero(h.yaw)
 
 \* "at least every update period" (+ slack us: scheduling quantum and stamp rounding, DESIGN 3.1(9));
-\* prevT = previous setpoint, or the start of the streaming thread
+\* prevT = the time the previous setpoint was handed over (when the link blocks the sender: the time that call
+\* returned -- the time a send spends in the link is not the helper's), or the start of the streaming thread
 HoverGap(t, prevT, period, slack) == t - prevT <= period + slack
 
 HoverClause(h, vels, prevT, period, slack) ==
@@ -140,7 +144,7 @@ EndsWithStop(helper, calls, outcome) ==
        ELSE Len(calls) >= 1 /\ calls[Len(calls)] = "stop"
 \* nothing streamed after the stop command (evaluated when a call arrives)
 AfterStopOK(helper, calls, c) ==
-    LET stopped == \E i \in DOMAIN calls : calls[i] = "stop"      \* (programs fly once: no take_off after land)
+    LET stopped == \E i \in DOMAIN calls : calls[i] = "stop"      \* (calls = those of the flight in progress)
     IN  IF helper = "MC" THEN ~stopped \/ (c = "notify" /\ calls[Len(calls)] = "stop")
         ELSE ~stopped
 
@@ -158,6 +162,8 @@ NextSt(p, st) ==
       [] p.op = "setv" -> [st EXCEPT !.dv = p.v]
       [] p.op = "seth" -> [st EXCEPT !.dh = p.c]
       [] p.op = "setl" -> [st EXCEPT !.dl = p.c]
+      [] p.op = "takeoff" -> [st EXCEPT !.z = IF p.w = 1 THEN st.dh ELSE p.c]    \* the take-off command carries an absolute height
+      [] p.op = "land" -> [st EXCEPT !.z = IF p.w = 1 THEN st.dl ELSE p.c]
       [] OTHER -> st
 \* reported position (Q triple, metres) = start + sum of displacements
 PosOK(pos, st) == QEq(pos.x, Milli(st.x)) /\ QEq(pos.y, Milli(st.y)) /\ QEq(pos.z, Milli(st.z))
